@@ -72,3 +72,11 @@ Example C01_hyps_hold_3 :
             SYield 8;
             SFor None None None [SYield 9; SIf None 10 [SReturn] ENone]] = true.
 Proof. vm_compute. reflexivity. Qed.
+(* switches: a tag switch and a tag-less switch with yields in their case bodies inside a loop *)
+Example C01_hyps_hold_4 :
+  c01_hyps [SFor None (Some 1) (Some (SAtom 2))
+              [SSwitch (Some (SAtom 3)) (Some 4)
+                 [(LVals [5; 6], [SYield 7; SAtom 8]); (LDefault, [SIf None 9 [SContinue] ENone; SYield 10]); (LVals [11], [SAtom 12])];
+               SSwitch None None [(LCond 13, [SYield 14; SReturn]); (LCond 15, [SAtom 16])];
+               SYield 17]] = true.
+Proof. vm_compute. reflexivity. Qed.
